@@ -30,14 +30,14 @@ AREAS = {
     "robust": ALL,
     "style": ALL,
     # third round (aimed at the dimensions added in build round 3)
-    "scratch": ["C01", "C02", "C03", "C04", "C05", "C09", "C10", "C08", "C12", "C20", "C07", "C14"],
-    "references": ALL,
-    "nameless": ALL,
-    "bounds": ["C01", "C02", "C03", "C10", "C20", "C04", "C13", "C08", "C07"],
-    "applypatch": ["C16", "C17", "C07", "C14", "C20", "C15", "C19"],
-    "mergepatch2": ["C18", "C17", "C07", "C14", "C20", "C19", "C16"],
-    "pointer2": ["C15", "C16", "C17", "C07", "C14", "C20"],
-    "keys": ["C06", "C07", "C08", "C11", "C12", "C14", "C15", "C16", "C17", "C18", "C19", "C20", "C04", "C05"],
+    "scratch": ["C02", "C03", "C04", "C05", "C09", "C01"],
+    "references": ["C06", "C07", "C11", "C05", "C14", "C15", "C08"],
+    "nameless": ["C05", "C06", "C07", "C11", "C12", "C15", "C17", "C18", "C19"],
+    "bounds": ["C01", "C02", "C03", "C10", "C20"],
+    "applypatch": ["C16", "C17", "C07", "C14"],
+    "mergepatch2": ["C18", "C17", "C07", "C14"],
+    "pointer2": ["C15", "C16", "C17", "C14"],
+    "keys": ["C06", "C07", "C08", "C11", "C12", "C14"],
 }
 
 
